@@ -12,7 +12,7 @@ from . import smt
 from .smt import Cell, Shape, DT, INT, FLT, BOOLDT
 from .values import (
     Unsupported, Sym, Ref, TupleV, FuncV, LambdaV, BuiltinV, ClassV, ModuleV, SuperV, Raised, ExcSym,
-    PyList, SeqV, PyDict, Obj, ArrState, DataView, Idx, StackState, Slice, is_concrete, num_term, isint_of,
+    PyList, SeqV, PyDict, Obj, ArrState, DataView, MaskView, Idx, StackState, Slice, is_concrete, num_term, isint_of,
     is_num, zand, zor, znot,
 )
 
@@ -90,6 +90,16 @@ class MAMixin(object):
             s = ArrState("ND", b.dtype, b.shape, b.val, lambda c: z3.BoolVal(False), sel=b.sel, selkey=b.selkey)
             s.data_of = b
             return s
+        if isinstance(v, MaskView):
+            b = self.arr_state(st, v.base)
+            if b.kind != "MA":
+                raise Unsupported("mask of a plain ndarray")
+            cache = b.stats.setdefault("_maskview", None)
+            if cache is None:
+                cache = ArrState("ND", BOOLDT, b.shape, lambda c, b=b: b2r(b.miss(c)), lambda c: z3.BoolVal(False))
+                cache.mask_of = b
+                b.stats["_maskview"] = cache
+            return cache
         if isinstance(v, Ref):
             o = st.get(v)
             if isinstance(o, ArrState):
@@ -186,9 +196,13 @@ class MAMixin(object):
                     if isbad:
                         yield self.raise_(s2, "UFuncTypeError", "Cannot cast ufunc output to dtype('int64')")
                         continue
-                    new = sa.clone(val=val, miss=miss if sa.kind == "MA" else sa.miss)
-                    if sa.kind == "ND" and b_arr and sb.kind == "MA":
-                        raise Unsupported("in-place op of ndarray with masked array")
+                    if sa.kind == "ND":
+                        # ndarray.__iop__(masked): the ufunc runs on the operand's raw data; the target stays an ndarray
+                        if opn == "Div":
+                            raise Unsupported("plain ndarray division (inf/nan not modelled)")
+                        new = sa.clone(val=lambda c: f(va(c), vb(c)))
+                    else:
+                        new = sa.clone(val=val, miss=miss)
                     self.mutate(s2, a, new)
                     yield s2, a
                 continue
@@ -245,13 +259,11 @@ class MAMixin(object):
             else:
                 yield st, DataView(o)
         elif name == "mask":
-            if s.kind != "MA":
+            if s.kind != "MA" or isinstance(o, (DataView, MaskView)):
                 yield self.raise_(st, "AttributeError", "'numpy.ndarray' object has no attribute 'mask'")
             else:
                 # A-NOMASK: the `nomask` scalar is treated as an all-False array of the same shape
-                m = ArrState("ND", BOOLDT, s.shape, lambda c: b2r(s.miss(c)), lambda c: z3.BoolVal(False))
-                m.mask_of = s
-                yield st, st.alloc(m)
+                yield st, MaskView(o)
         elif name == "fill_value":
             yield st, Sym("num", smt.fresh("fill_value", z3.RealSort()), False)
         elif name == "size":
@@ -346,7 +358,7 @@ class MAMixin(object):
             mk = st.get(mask) if isinstance(mask, Ref) else None
             if not isinstance(mk, StackState) or not getattr(mk, "is_mask", False):
                 raise Unsupported("ma.array(stack, mask=...) with this mask")
-            yield st, st.alloc(StackState(sk.n, sk.shape, sk.layer, mk.miss, kind="MA", ok=sk.ok))
+            yield st, st.alloc(StackState(sk.n, sk.shape, sk.layer, mk.miss, kind="MA", ok=sk.ok, origin=sk.origin))
             return
         if isinstance(v, Ref) and isinstance(st.get(v), PyList):
             for r in self.ma_array_from_list(st, v, kw):
@@ -592,3 +604,227 @@ class MAMixin(object):
 
     def bi_arr___bool__(self, st, args, kw):
         yield self.raise_(st, "ValueError", "The truth value of an array with more than one element is ambiguous")
+
+
+# =========================================================================== stacks (vstack + sort along axis 0)
+class SortedColumn(object):
+    """SRT(k, c): the nondecreasing arrangement of the stored column c of an input family (spec function).
+
+    Facts supplied per requested (k, c): order of neighbours, permutation witness, extreme bounds."""
+
+    def __init__(self, fid, n, col):
+        self.fid, self.n, self.col = fid, n, col
+        self.f = smt.fresh_fun("srt_" + str(fid), z3.IntSort(), Cell, z3.RealSort())
+        self.perm = smt.fresh_fun("srtperm_" + str(fid), z3.IntSort(), Cell, z3.IntSort())
+        self.requests = {}
+        self._in = False
+
+    def at(self, k, c):
+        if isinstance(k, int):
+            k = z3.IntVal(k)
+        k = z3.simplify(k)
+        if not self._in:
+            self.requests[(k.sexpr(), c.sexpr())] = (k, c)
+        return self.f(k, c)
+
+    def facts(self, kterms):
+        self._in = True
+        try:
+            out = []
+            n = self.n
+            for (k, c) in list(self.requests.values()):
+                out.append(z3.Implies(z3.And(k >= 0, k < n - 1), self.f(k, c) <= self.f(k + 1, c)))
+                out.append(z3.Implies(z3.And(k >= 1, k < n), self.f(k - 1, c) <= self.f(k, c)))
+                p = self.perm(k, c)
+                out.append(z3.Implies(z3.And(k >= 0, k < n), z3.And(p >= 0, p < n, self.f(k, c) == self.col(p, c))))
+                out.append(z3.Implies(z3.And(k >= 0, k < n), z3.And(self.f(0, c) <= self.f(k, c), self.f(k, c) <= self.f(n - 1, c))))
+                for i in kterms:
+                    out.append(z3.Implies(z3.And(i >= 0, i < n), z3.And(self.f(0, c) <= self.col(i, c), self.col(i, c) <= self.f(n - 1, c))))
+            return out
+        finally:
+            self._in = False
+
+
+class RangeSum(object):
+    """RS(lo, m, c) = sum_{i<m} SRT(lo+i, c); recursive spec function of m."""
+
+    def __init__(self, srt):
+        self.srt = srt
+        self.f = smt.fresh_fun("rsum_" + str(srt.fid), z3.IntSort(), z3.IntSort(), Cell, z3.RealSort())
+        self.requests = {}
+        self._in = False
+
+    def at(self, lo, m, c):
+        lo, m = z3.simplify(lo), z3.simplify(m)
+        if not self._in:
+            self.requests[(lo.sexpr(), m.sexpr(), c.sexpr())] = (lo, m, c)
+        return self.f(lo, m, c)
+
+    def facts(self):
+        self._in = True
+        try:
+            out = []
+            for (lo, m, c) in list(self.requests.values()):
+                out.append(z3.Implies(m == 0, self.f(lo, m, c) == 0))
+                out.append(z3.Implies(m >= 1, self.f(lo, m, c) == self.f(lo, m - 1, c) + self.srt.f(lo + m - 1, c)))
+            return out
+        finally:
+            self._in = False
+
+
+def _stack_methods():
+    def sorted_column(self, st, fid):
+        cache = getattr(self, "_srt", None)
+        if cache is None:
+            cache = self._srt = {}
+        if fid not in cache:
+            fam = st.fams[fid]
+            sc = SortedColumn(fid, fam.n, fam.val_f)
+            rs = RangeSum(sc)
+            cache[fid] = (sc, rs)
+        return cache[fid]
+
+    def srt_facts(self, st):
+        out = []
+        for (sc, rs) in getattr(self, "_srt", {}).values():
+            out.extend(sc.facts(st.all_kterms()))
+            out.extend(rs.facts())
+        return out
+
+    def bi_numpy_vstack(self, st, args, kw):
+        for r in self._stack(st, args, kw, need_rank1=True):
+            yield r
+
+    def bi_numpy_stack(self, st, args, kw):
+        for r in self._stack(st, args, kw, need_rank1=False):
+            yield r
+
+    def bi_numpy_array(self, st, args, kw):
+        if set(kw) - {"__node__"}:
+            raise Unsupported("numpy.array keywords")
+        for r in self._stack(st, args, kw, need_rank1=False):
+            yield r
+
+    def _stack(self, st, args, kw, need_rank1):
+        (lst,) = args
+        o = st.get(lst) if isinstance(lst, Ref) else None
+        if not isinstance(o, PyList):
+            raise Unsupported("stack of non-list")
+        seq = self.list_seq(o)
+        n = seq.n
+        first = self.arr_state(st, seq.get(z3.IntVal(0)))
+        probe = seq.get(smt.fresh("k", z3.IntSort()))
+        origin = None
+        if isinstance(probe, DataView) and isinstance(probe.base, Ref) and isinstance(probe.base.oid, tuple) and probe.base.oid[0] == "fam":
+            fid = probe.base.oid[1]
+            k0 = seq.get(z3.IntVal(0)).base.oid[2]
+            if z3.is_int_value(z3.simplify(k0)) and z3.simplify(k0).as_long() == 0 and z3.simplify(n == st.fams[fid].n) is not None \
+                    and z3.is_true(z3.simplify(n == st.fams[fid].n)):
+                origin = ("fam", fid)
+        layer = lambda k, c, seq=seq, st=st: self.arr_state(st, seq.get(k)).val(c)
+        # every layer has the shape of the first (else numpy raises ValueError)
+        kq = st.add_k("k_stack")
+        same = z3.Implies(z3.And(kq >= 0, kq < n), self.arr_state(st, seq.get(kq)).shape == first.shape)
+        for s1, ok in self.branch(st, same):
+            if not ok:
+                yield self.raise_(s1, "ValueError", "all input arrays must have the same shape")
+                continue
+            if need_rank1:
+                # numpy.vstack concatenates along the first axis: only for rank-1 inputs is the result a stack of
+                # n layers over the inputs' cells (DESIGN 4.2).  The requirement is an obligation of the caller.
+                okr = self.oblige(s1, "%s/vstack:requires rank==1" % (self.current.key if self.current else "?"),
+                                  RANK(first.shape) == 1, kind="callsite-requires", meta={"clause": "shape"})
+                stk = StackState(n, first.shape, layer, None, kind="ND", ok=okr, origin=origin)
+            else:
+                stk = StackState(n, first.shape, layer, None, kind="ND", origin=origin)
+            yield s1, s1.alloc(stk)
+
+    def bi_numpy_broadcast_to(self, st, args, kw):
+        a, shp = args
+        if not (isinstance(shp, Sym) and shp.kind == "stackshape"):
+            raise Unsupported("broadcast_to target shape")
+        n, shape = shp.t
+        s = self.arr_state(st, a)
+        for s1, ok in self.same_shape_or_raise(st, s.shape, shape):
+            if not ok:
+                yield self.raise_(s1, "ValueError", "operands could not be broadcast together")
+                continue
+            stk = StackState(n, shape, lambda k, c, s=s: s.val(c), lambda c, s=s: s.val(c) != 0, kind="ND", is_mask=True)
+            yield s1, s1.alloc(stk)
+
+    def bi_stack_copy(self, st, args, kw):
+        o = st.get(args[0])
+        yield st, st.alloc(StackState(o.n, o.shape, o.layer, o.miss, o.kind, o.sorted, o.ok, o.origin, o.lo, o.hi, o.is_mask))
+
+    def bi_stack_sort(self, st, args, kw):
+        ref = args[0]
+        o = st.get(ref)
+        kwc = {k: v for k, v in kw.items() if k != "__node__"}
+        if kwc.get("axis") != 0:
+            raise Unsupported("sort along another axis")
+        if o.kind != "MA" or o.miss is None:
+            raise Unsupported("sort of an unmasked stack")
+        if o.origin is not None:
+            sc, rs = self.sorted_column(st, o.origin[1])
+            layer = lambda k, c, sc=sc: sc.at(k, c)
+        else:
+            f = smt.fresh_fun("sorted_layer", z3.IntSort(), Cell, z3.RealSort())
+            layer = lambda k, c: f(k, c)
+        st.set(ref, StackState(o.n, o.shape, layer, o.miss, o.kind, True, o.ok, o.origin))
+        yield st, None
+
+    def stack_getitem(self, st, o, idx):
+        n = o.n
+        if isinstance(idx, Slice):
+            if idx.step is not None:
+                raise Unsupported("stack slice step")
+            states = [st]
+            for b in (idx.lo, idx.hi):
+                if b is not None and not isinstance(isint_of(b), bool):
+                    nxt = []
+                    for s in states:
+                        for s2, isi in self.branch(s, isint_of(b)):
+                            if isi:
+                                nxt.append(s2)
+                            else:
+                                yield self.raise_(s2, "TypeError", "slice indices must be integers")
+                    states = nxt
+                elif b is not None and isint_of(b) is False:
+                    yield self.raise_(st, "TypeError", "slice indices must be integers")
+                    return
+            for s in states:
+                lo = z3.IntVal(0) if idx.lo is None else self._clip(self.norm_index(idx.lo, n), n)
+                hi = n if idx.hi is None else self._clip(self.norm_index(idx.hi, n), n)
+                yield s, s.alloc(StackState(n, o.shape, o.layer, o.miss, o.kind, o.sorted, o.ok, o.origin, z3.simplify(lo), z3.simplify(hi)))
+            return
+        if not is_num(idx):
+            raise Unsupported("stack index")
+        k = self.norm_index(idx, n)
+        for s2, ok in self.branch(st, z3.And(k >= 0, k < n)):
+            if not ok:
+                yield self.raise_(s2, "IndexError", "index out of bounds for axis 0")
+                continue
+            kk = z3.simplify(k)
+            miss = o.miss if o.miss is not None else (lambda c: z3.BoolVal(False))
+            yield s2, s2.alloc(ArrState(o.kind, FLT, o.shape, lambda c, kk=kk: o.layer(kk, c), miss))
+
+    def stack_mean(self, st, o, kw):
+        kwc = {k: v for k, v in kw.items() if k != "__node__"}
+        if kwc.get("axis") != 0 or o.lo is None:
+            raise Unsupported("mean of a stack")
+        if not (o.sorted and o.origin is not None):
+            raise Unsupported("mean over an unsorted / unknown stack")
+        sc, rs = self.sorted_column(st, o.origin[1])
+        cnt = z3.simplify(o.hi - o.lo)
+        lo = o.lo
+        # all layers share the broadcast mask: a cell is either missing in every layer or in none
+        miss = lambda c: z3.Or(o.miss(c), cnt <= 0)
+        yield st, st.alloc(ArrState("MA", FLT, o.shape, lambda c: rs.at(lo, cnt, c) / z3.ToReal(cnt), miss))
+
+    return dict(sorted_column=sorted_column, srt_facts=srt_facts, bi_numpy_vstack=bi_numpy_vstack, bi_numpy_stack=bi_numpy_stack,
+                bi_numpy_array=bi_numpy_array, _stack=_stack, bi_numpy_broadcast_to=bi_numpy_broadcast_to,
+                bi_stack_copy=bi_stack_copy, bi_stack_sort=bi_stack_sort, stack_getitem=stack_getitem, stack_mean=stack_mean)
+
+
+for _k, _v in _stack_methods().items():
+    setattr(MAMixin, _k, _v)
